@@ -306,6 +306,65 @@ def impl_geom(vs):
 
 
 SIG_NO_EAR = 'C17:AxisymmetricVoxel:raysect-triangulate2d-no-ear'
+SIG_TRI_BAD = 'C17:AxisymmetricVoxel:raysect-triangulate2d-inconsistent-triangulation'
+
+
+def _normalised(w):
+    """the vertex array exactly as AxisymmetricVoxel.__init__ stores it and hands it to triangulate2d"""
+    from raysect.core.math.cython.utility import _test_winding2d
+    arr = np.array(w, dtype=np.float64)
+    if not _test_winding2d(arr):
+        arr = np.ascontiguousarray(arr[::-1])
+    return arr
+
+
+def triangulation_probe(w):
+    """independent consistency probe of raysect's triangulate2d on this listing (exact rationals; no cherab code involved):
+    'ok'            n-2 index triples over the polygon's vertices, every non-degenerate triangle oriented like the polygon
+                    (then the unsigned areas add up to the polygon's area: theorem triangulation_unsigned);
+    'no-ear'        triangulate2d raised its 'at least one ear' RuntimeError;
+    'inconsistent'  it returned triangles but some are inverted (=> overlapping / reaching outside the polygon);
+    'error:<kind>'  anything else.
+    Returns (verdict, triangles or None)."""
+    from raysect.core.math import triangulate2d
+    arr = _normalised(w)
+    st, out = call(triangulate2d, arr)
+    if st != 'ok':
+        return ('no-ear' if st == 'RuntimeError' and 'at least one ear' in str(out) else 'error:' + st), None
+    tris = [tuple(int(i) for i in t) for t in out]
+    P = [(Fr(float(x)), Fr(float(y))) for x, y in arr]
+    n = len(P)
+    S = sum((P[i][0] * P[(i + 1) % n][1] - P[(i + 1) % n][0] * P[i][1] for i in range(n)), Fr(0))
+    T = [_orient(P[a], P[b], P[d]) for a, b, d in tris] if all(0 <= i < n for t in tris for i in t) else None
+    ok = T is not None and len(tris) == n - 2 and sum(T, Fr(0)) == S and all((t > 0) == (S > 0) or t == 0 for t in T)
+    return ('ok' if ok else 'inconsistent'), tris
+
+
+def report_bad_triangulation(ctx, w, tris, desc, vox=None):
+    """the probe failed on listing `w`: attribute to the upstream finding, with what the voxel then does as evidence"""
+    from raysect.core.math.random import seed
+    arr = [tuple(map(float, p)) for p in _normalised(w)]
+    P = [(Fr(x), Fr(y)) for x, y in arr]
+    T = [float(_orient(P[a], P[b], P[d])) / 2 for a, b, d in tris]
+    A = float(slab_oracle(arr)[0])
+    extra = ''
+    g = vox or impl_geom(w)
+    if g['status'] == 'ok':
+        pts = []
+        seed(20250917)
+        st, _ = call(g['voxel'].emissivity_from_function, lambda r, phi, z: pts.append((r, z)) or 1.0, 4000)
+        span = max(abs(c) for c in flat(arr))
+        out = [q for q in pts if not (inside_even_odd(q[0], q[1], arr) or edge_distance(q[0], q[1], arr) <= 1e-9 * span)]
+        extra = '; emissivity_from_function (raysect seed 20250917, 4000 samples) evaluates %d points outside the cross-section%s' % (
+            len(out), ', first %r' % (out[0],) if out else '')
+    else:
+        extra = '; AxisymmetricVoxel refuses the polygon (%s: %s)' % (g['status'], str(g.get('msg'))[:80])
+    ctx.count('triangulation:inconsistent(raysect)')
+    ctx.fail(SIG_TRI_BAD, 'raysect.core.math.triangulate2d returned an inconsistent triangulation for the simple polygon %r (as stored by the voxel): '
+             'triangles %r have signed areas %r — inverted/overlapping, unsigned sum %r vs polygon area %r%s'
+             % (arr, tris, T, sum(abs(t) for t in T), A, extra), dict(desc, check='geom', stored_vertices=arr, triangles=tris))
+
+
 
 
 def reject_signature(w, st, msg):
@@ -314,16 +373,13 @@ def reject_signature(w, st, msg):
     itself raises its 'at least one ear' RuntimeError — an upstream limitation (boundary-inclusive inside_triangle + rounding
     on vertices that are collinear with other edges); cherab passes the polygon through unchanged.  Anything else keeps the
     generic signature."""
-    if st == 'RuntimeError' and 'at least one ear' in str(msg):
+    if st == 'RuntimeError':
         try:
-            from raysect.core.math import triangulate2d
-            from raysect.core.math.cython.utility import _test_winding2d
-            arr = np.array(w, dtype=np.float64)
-            if not _test_winding2d(arr):
-                arr = np.ascontiguousarray(arr[::-1])
-            st2, m2 = call(triangulate2d, arr)
-            if st2 == 'RuntimeError' and 'at least one ear' in str(m2):
+            verdict, _ = triangulation_probe(w)
+            if verdict == 'no-ear' and 'at least one ear' in str(msg):
                 return SIG_NO_EAR
+            if verdict == 'inconsistent':       # a cherab-side guard refusing what raysect mis-triangulated
+                return SIG_TRI_BAD
         except Exception:  # noqa
             pass
     return 'C17:AxisymmetricVoxel:rejects-simple-polygon:' + st
@@ -444,7 +500,14 @@ def check_polygon(ctx, jobs, vs, kind, placement, exact=False):
                      ' -- reproduced by calling raysect.core.math.triangulate2d directly on the winding-normalised vertices' if sig == SIG_NO_EAR else ''),
                      dict(check='geom', **desc))
             continue
-        vox = vox or g
+        verdict, ptris = triangulation_probe(w)
+        ctx.count('triangulation-probe:' + verdict)
+        if verdict == 'inconsistent':
+            report_bad_triangulation(ctx, w, ptris, desc, g)
+        elif verdict != 'ok':
+            ctx.broke('assumption', 'triangulate2d probe: ' + verdict, dict(vertices=w))
+        elif vox is None:
+            vox = g
         (sa, a), (sc, c), (sv, vol) = g['area'], g['centroid'], g['volume']
         if sa != 'ok' or sc != 'ok' or sv != 'ok':
             ctx.fail('C17:geometry:raised', 'area/centroid/volume raised %s/%s/%s on %r' % (sa, sc, sv, w), dict(check='geom', **desc))
@@ -771,7 +834,8 @@ def run(ctx):
         vals = [b2f(x) for x in co.split()]
         total, cum = vals[0], vals[1:]
         c['total'], c['cum'] = total, cum
-        check_triangulation(ctx, c, mom)
+        if not check_triangulation(ctx, c, mom):
+            continue            # every sampling oracle presupposes a sound triangulation; the failure is attributed above
         monitor['polygons'] += 1
         if oob_reachable(total, cum):
             # some value of uniform() makes find_index(...) + 1 == num_triangles: only a clamp keeps the index in range
@@ -834,9 +898,14 @@ def check_triangulation(ctx, c, mom):
     T = [_orient(P[a], P[b], P[d]) for a, b, d in tris]
     ok = len(tris) == n - 2 and all(0 <= i < n for t in tris for i in t) and sum(T, Fr(0)) == S and all((t > 0) == (S > 0) or t == 0 for t in T)
     ok = ok and abs(S) / 2 == mom[0]
-    if not ok:
-        ctx.broke('assumption', 'triangulate2d output is not a consistently oriented triangulation', dict(vertices=verts, triangles=tris))
     ctx.count('triangulation:checked')
+    if not ok:
+        verdict, ptris = triangulation_probe(verts)
+        if verdict == 'inconsistent':
+            report_bad_triangulation(ctx, verts, ptris, dict(c['desc']))
+        else:
+            ctx.broke('assumption', 'triangulate2d output is not a consistently oriented triangulation', dict(vertices=verts, triangles=tris))
+    return ok
 
 
 def statistical_mean(ctx, c, vox, mom, flags, n):
@@ -925,6 +994,11 @@ def search_oob(ctx, flags):
             continue
         g = impl_geom(vs)
         if g['status'] != 'ok':
+            continue
+        verdict, ptris = triangulation_probe(vs)
+        if verdict != 'ok':
+            if verdict == 'inconsistent':
+                report_bad_triangulation(ctx, vs, ptris, dict(kind='far', vertices=vs), g)
             continue
         tris = impl_triangles(g['vertices'])
         cands.append((g['vertices'], tris))
@@ -1078,6 +1152,10 @@ def quad_sampling(ctx, flags, nquads, nsamp):
                 ctx.fail(reject_signature(w, g['status'], g['msg']), 'AxisymmetricVoxel(%r) raised %s: %s' % (w, g['status'], g['msg']), dict(check='quad', vertices=w, kind=kind))
                 continue
             ctx.count('quad:' + kind)
+            verdict, ptris = triangulation_probe(w)
+            if verdict == 'inconsistent':
+                report_bad_triangulation(ctx, w, ptris, dict(kind=kind, vertices=w), g)
+                continue
             for fname, fn in QUAD_FUNCS.items():
                 pts, vals = [], []
 
